@@ -3,4 +3,225 @@ import MelModel.Chain
 import MelModel.Lemmas.Counts
 import MelModel.Lemmas.FeeMult
 namespace Mel
+open Mel.Gen
+
+/-! ### history, height and network are untouched by applying a batch and by sealing -/
+
+def SameHHN (s s' : State) : Prop :=
+  s'.history = s.history ∧ s'.height = s.height ∧ s'.network = s.network
+
+theorem SameHHN.refl (s : State) : SameHHN s s := ⟨rfl, rfl, rfl⟩
+
+theorem SameHHN.trans {a b c : State} (h1 : SameHHN a b) (h2 : SameHHN b c) : SameHHN a c :=
+  ⟨h2.1.trans h1.1, h2.2.1.trans h1.2.1, h2.2.2.trans h1.2.2⟩
+
+/-! #### sealing -/
+
+theorem processSwapsForPool_hhn (k : PoolKey) (s : State) (swaps : List Tx) (s' : State)
+    (h : processSwapsForPool k s swaps = .ok s') : SameHHN s s' := by
+  unfold processSwapsForPool at h
+  split at h
+  · cases h
+  · simp only at h
+    split at h
+    · cases h
+    · cases h
+    · obtain ⟨coins, _, h2⟩ := Outcome.bind_eq_ok h
+      cases h2; exact ⟨rfl, rfl, rfl⟩
+
+theorem processSwaps_hhn (s s' : State) (h : processSwaps s = .ok s') : SameHHN s s' := by
+  unfold processSwaps at h
+  exact Outcome.foldlM'_inv (SameHHN s) _
+    (fun b a b' hb hf => hb.trans (processSwapsForPool_hhn _ _ _ _ hf)) _ _ _ (SameHHN.refl s) h
+
+theorem processDepositsForPool_hhn (env : Env) (k : PoolKey) (s : State) (deps : List Tx) (s' : State)
+    (h : processDepositsForPool env k s deps = .ok s') : SameHHN s s' := by
+  unfold processDepositsForPool at h
+  simp only at h
+  split at h
+  · cases h
+  · cases h
+  · obtain ⟨coins, _, h2⟩ := Outcome.bind_eq_ok h
+    cases h2; exact ⟨rfl, rfl, rfl⟩
+
+theorem processDeposits_hhn (env : Env) (s s' : State) (h : processDeposits env s = .ok s') :
+    SameHHN s s' := by
+  unfold processDeposits at h
+  exact Outcome.foldlM'_inv (SameHHN s) _
+    (fun b a b' hb hf => hb.trans (processDepositsForPool_hhn _ _ _ _ _ hf)) _ _ _ (SameHHN.refl s) h
+
+theorem processWithdrawalsForPool_hhn (k : PoolKey) (s : State) (reqs : List Tx) (s' : State)
+    (h : processWithdrawalsForPool k s reqs = .ok s') : SameHHN s s' := by
+  unfold processWithdrawalsForPool at h
+  simp only at h
+  split at h
+  · cases h
+  · split at h
+    · cases h; exact SameHHN.refl _
+    · split at h
+      · cases h
+      · cases h
+      · obtain ⟨coins, _, h2⟩ := Outcome.bind_eq_ok h
+        cases h2; exact ⟨rfl, rfl, rfl⟩
+
+theorem processWithdrawals_hhn (env : Env) (s s' : State) (h : processWithdrawals env s = .ok s') :
+    SameHHN s s' := by
+  unfold processWithdrawals at h
+  exact Outcome.foldlM'_inv (SameHHN s) _
+    (fun b a b' hb hf => hb.trans (processWithdrawalsForPool_hhn _ _ _ _ hf)) _ _ _ (SameHHN.refl s) h
+
+theorem createBuiltins_hhn (s : State) : SameHHN s (createBuiltins s) := ⟨rfl, rfl, rfl⟩
+
+theorem processPegging_hhn (s s' : State) (h : processPegging s = .ok s') : SameHHN s s' := by
+  unfold processPegging at h
+  simp only at h
+  obtain ⟨⟨a, b⟩, _, h⟩ := Outcome.bind_eq_ok h
+  simp only at h
+  obtain ⟨sm, _, h⟩ := Outcome.bind_eq_ok h
+  split at h
+  · cases h
+  · obtain ⟨sm1, _, h⟩ := Outcome.bind_eq_ok h
+    obtain ⟨sm2, _, h⟩ := Outcome.bind_eq_ok h
+    cases h; exact ⟨rfl, rfl, rfl⟩
+
+theorem presealMelmint_hhn (env : Env) (s s' : State) (h : presealMelmint env s = .ok s') :
+    SameHHN s s' := by
+  unfold presealMelmint at h
+  simp only at h
+  split at h
+  · cases h
+  · obtain ⟨s1, h1, h⟩ := Outcome.bind_eq_ok h
+    obtain ⟨s2, h2, h⟩ := Outcome.bind_eq_ok h
+    obtain ⟨s3, h3, h⟩ := Outcome.bind_eq_ok h
+    exact ((((createBuiltins_hhn s).trans (processSwaps_hhn _ _ h1)).trans
+      (processDeposits_hhn _ _ _ h2)).trans (processWithdrawals_hhn _ _ _ h3)).trans
+      (processPegging_hhn _ _ h)
+
+theorem applyTip909_hhn (s s' : State) (h : applyTip909 s = .ok s') : SameHHN s s' := by
+  unfold applyTip909 at h
+  simp only at h
+  split at h
+  · cases h
+  · split at h
+    · cases h
+    · obtain ⟨⟨sm', mel, x⟩, _, h⟩ := Outcome.bind_eq_ok h
+      simp only at h
+      split at h
+      · cases h
+      · split at h
+        · cases h
+        · obtain ⟨⟨es', y, z⟩, _, h⟩ := Outcome.bind_eq_ok h
+          cases h; exact ⟨rfl, rfl, rfl⟩
+
+theorem collectProposerFee_hhn (env : Env) (s : State) (a : ProposerAction) (s' : State)
+    (h : collectProposerFee env s a = .ok s') : SameHHN s s' := by
+  unfold collectProposerFee at h
+  simp only at h
+  split at h
+  · cases h
+  · cases h; exact ⟨rfl, rfl, rfl⟩
+
+theorem applyProposerAction_hhn (env : Env) (s : State) (a : ProposerAction) (s' : State)
+    (h : applyProposerAction env s a = .ok s') : SameHHN s s' := by
+  unfold applyProposerAction at h
+  have := collectProposerFee_hhn _ _ _ _ h
+  exact this
+
+theorem sealState_hhn (env : Env) (s : State) (action : Option ProposerAction) (ss : Sealed)
+    (h : sealState env s action = .ok ss) : SameHHN s ss.st := by
+  unfold sealState at h
+  obtain ⟨s1, h1, h⟩ := Outcome.bind_eq_ok h
+  split at h
+  · cases h
+  · obtain ⟨s2, h2, h⟩ := Outcome.bind_eq_ok h
+    have h12 : SameHHN s1 s2 := by
+      split at h2
+      · exact applyTip909_hhn _ _ h2
+      · cases h2; exact SameHHN.refl _
+    have h02 := (presealMelmint_hhn _ _ _ h1).trans h12
+    split at h
+    · cases h; exact h02
+    · obtain ⟨s3, h3, h⟩ := Outcome.bind_eq_ok h
+      cases h; exact h02.trans (applyProposerAction_hhn _ _ _ _ h3)
+
+/-! #### applying a batch -/
+
+theorem handleFaucetTx_hhn (env : Env) (s : State) (tx : Tx) (s' : State)
+    (h : handleFaucetTx env s tx = .ok s') : SameHHN s s' := by
+  unfold handleFaucetTx at h
+  simp only at h
+  split at h
+  · cases h
+  · split at h
+    · cases h
+    · split at h
+      · cases h; exact ⟨rfl, rfl, rfl⟩
+      · cases h; exact SameHHN.refl _
+
+theorem createNextState_hhn (env : Env) (s : State) (txs : List Tx) (rel : Relevant) (tip906 : Bool)
+    (s' : State) (h : createNextState env s txs rel tip906 = .ok s') : SameHHN s s' := by
+  unfold createNextState at h
+  simp only at h
+  refine Outcome.foldlM'_inv (SameHHN s) _ ?_ _ _ _ ?_ h
+  rotate_left
+  · exact ⟨rfl, rfl, rfl⟩
+  intro b tx b' hb hf
+  obtain ⟨st1, h1, hf⟩ := Outcome.bind_eq_ok hf
+  obtain ⟨coins2, _, hf⟩ := Outcome.bind_eq_ok hf
+  obtain ⟨minFee, _, hf⟩ := Outcome.bind_eq_ok hf
+  have hb1 : SameHHN b st1 := by
+    split at h1
+    · exact handleFaucetTx_hhn _ _ _ _ h1
+    · cases h1; exact SameHHN.refl _
+  split at hf
+  · cases hf
+  · cases hf; exact hb.trans (hb1.trans ⟨rfl, rfl, rfl⟩)
+
+theorem applyBatch_hhn (env : Env) (s : State) (txs : List Tx) (fb : Header) (s' : State)
+    (h : applyBatch env s txs fb = .ok s') : SameHHN s s' := by
+  unfold applyBatch at h
+  obtain ⟨rel, _, h⟩ := Outcome.bind_eq_ok h
+  obtain ⟨newStakes, _, h⟩ := Outcome.bind_eq_ok h
+  simp only at h
+  obtain ⟨_, _, h⟩ := Outcome.bind_eq_ok h
+  obtain ⟨newSpeed, _, h⟩ := Outcome.bind_eq_ok h
+  obtain ⟨next, hn, h⟩ := Outcome.bind_eq_ok h
+  cases h
+  exact (createNextState_hhn _ _ _ _ _ _ hn).trans ⟨rfl, rfl, rfl⟩
+
+/-! #### headers -/
+
+/-- what `headerOf` returns -/
+theorem headerOf_ok (env : Env) (ss : Sealed) (hdr : Header) (h : headerOf env ss = .ok hdr) :
+    ∃ p, ((ss.st.height = 0 ∧ p = zeroHash) ∨
+          (ss.st.height ≠ 0 ∧ ∃ ph, ss.st.history.get (ss.st.height - 1) = some ph ∧ p = env.hdrHash ph)) ∧
+      hdr = { network := ss.st.network, previous := p, height := ss.st.height,
+              historyHash := env.historyRoot ss.st.history, coinsHash := env.coinsRoot ss.st.coins,
+              transactionsHash := env.txsRoot ss.st.tip908 ss.st.txs,
+              feePool := ss.st.feePool, feeMultiplier := ss.st.feeMultiplier, doscSpeed := ss.st.doscSpeed,
+              poolsHash := env.poolsRoot ss.st.pools, stakesHash := env.stakesRoot ss.st.stakes } := by
+  unfold headerOf at h
+  simp only at h
+  obtain ⟨p, hp, h⟩ := Outcome.bind_eq_ok h
+  cases h
+  refine ⟨p, ?_, rfl⟩
+  split at hp
+  · next h0 => cases hp; exact Or.inl ⟨h0, rfl⟩
+  · next h0 =>
+    split at hp
+    · next ph hph => cases hp; exact Or.inr ⟨h0, ph, hph, rfl⟩
+    · cases hp
+
+/-- what `nextUnsealed` returns -/
+theorem nextUnsealed_ok (env : Env) (ss : Sealed) (basis : State) (h : nextUnsealed env ss = .ok basis) :
+    ∃ hdr, headerOf env ss = .ok hdr ∧ basis.history = ss.st.history.set ss.st.height hdr ∧
+      basis.height = ss.st.height + 1 ∧ basis.network = ss.st.network := by
+  unfold nextUnsealed at h
+  obtain ⟨hdr, hh, h⟩ := Outcome.bind_eq_ok h
+  simp only at h
+  refine ⟨hdr, hh, ?_⟩
+  split at h
+  · cases h; exact ⟨rfl, rfl, rfl⟩
+  · cases h; exact ⟨rfl, rfl, rfl⟩
+
 end Mel
